@@ -823,6 +823,13 @@ func gen(a Args, out *Out) {
 	}
 	emit := func(kind string, in Sx) {
 		obs := run(in)
+		// an inconclusive history (too slow, or a blocking caller neither returned nor parked within the
+		// settle budget) is run again, twice at most; what is still inconclusive is recorded, never alarmed
+		for try := 0; try < 2 && obs.Len() == 1 && obs.At(0).Kind == 'i'; try++ {
+			out.Count("inconclusive:retried")
+			atomic.AddInt32(&nInconclusive, -1)
+			obs = run(in)
+		}
 		out.Case(kind, nontrivial(in), in, obs)
 		if in.Len() == 1 || in.Len() == 4 {
 			return
@@ -889,9 +896,7 @@ func gen(a Args, out *Out) {
 		out.CountN("stress:calls", in.At(1).AsInt()*in.At(2).AsInt())
 	}
 	out.GoChecked += atomic.LoadInt64(&fullChecked)
-	if n := atomic.LoadInt32(&nInconclusive); n > 0 {
-		out.CountN("inconclusive:history too slow or a blocking caller neither returned nor parked within 5 s", int(n))
-	}
+	out.CountN("inconclusive:total (histories not evaluated: too slow, or a blocking caller neither returned nor parked within 5 s)", int(atomic.LoadInt32(&nInconclusive)))
 }
 
 func main() {
